@@ -42,6 +42,7 @@ ORACLE_PROPS = {
     "exception_class": {"C04"},
     "exception_args": {"C04"},
     "lost_future": {"C02", "C04", "C06"},
+    "await_starved": {"C02", "C03", "C07"},
     "not_done_after_wait": {"C02", "C05", "C06"},
     "no_hang": {"C02", "C05", "C06", "C07", "C12", "C04"},
     "shutdown_raised": {"C05"},
@@ -85,7 +86,26 @@ def region_of(scen, judged, oracle):
     return None
 
 
-TIMING_ORACLES = {"no_hang", "lost_future", "thread_alive_at_end", "ghost_process_at_end"}
+def starvation_probes():
+    """Lost wake-ups in the resolver: X = f(A, B) is parked in front of six calls parked on G; A finishes, and B a few milliseconds
+    later — inside the resolver's pass over its wait list, which schedule perturbation at every done() stretches to tens of
+    milliseconds.  Three workers hold A, B, G, so a worker is free as soon as A returns.  The script then waits for X."""
+    out = []
+    for k, gap in enumerate([8, 15, 25, 40]):
+        calls = [{"base": 1, "gate": 0, "args": [], "kwargs": {}}, {"base": 2, "gate": 1, "args": [], "kwargs": {}},
+                 {"base": 4, "gate": 2, "args": [], "kwargs": {}}, {"base": 10, "args": [{"f": 0}, {"f": 1}], "kwargs": {}}]
+        calls += [{"base": 100 + j, "args": [{"f": 2}], "kwargs": {}} for j in range(6)]
+        script = [{"c": "submit"} for _ in calls] + [{"c": "wait_enter", "i": 0}, {"c": "wait_enter", "i": 1}, {"c": "wait_enter", "i": 2},
+                                                      {"c": "sleep", "ms": 60}, {"c": "release", "g": 0}, {"c": "sleep", "ms": gap},
+                                                      {"c": "release", "g": 1}, {"c": "await", "i": 3}, {"c": "release", "g": 2},
+                                                      {"c": "shutdown", "wait": True, "cancel": False}]
+        out.append({"executor": {"backend": "local", "block_allocation": True, "max_workers": 3, "disable_dependencies": False},
+                    "calls": calls, "script": script, "gates": [0, 1, 2], "perturb": {"resolver": 1.0}, "seed": 40 + k, "timeout": 20,
+                    "settle": 6, "await_timeout": 3.0, "starvation_probe": True})
+    return out
+
+
+TIMING_ORACLES = {"no_hang", "lost_future", "thread_alive_at_end", "ghost_process_at_end", "await_starved"}
 
 
 def confirm_timing(m, prop, scen, tries=2):
